@@ -10,7 +10,7 @@ func init() {
 					Quick: map[string]int{"services": 2, "kinds": 7, "property": prop}, Thorough: map[string]int{"services": 2, "kinds": 7, "property": prop},
 					Reach: reach, Functions: fns, Known: known},
 				{Name: "symschema-plain-id", Pkg: "merger", Files: []string{"merger/c03.go"}, Entry: "VerifMerge", Mode: "seq",
-					Quick: map[string]int{"services": 2, "kinds": 4, "plainid": 1, "property": prop}, Thorough: map[string]int{"services": 3, "kinds": 4, "plainid": 1, "property": prop},
+					Quick: map[string]int{"services": 2, "kinds": 4, "plainid": 1, "property": prop}, Thorough: map[string]int{"services": 3, "kinds": 3, "plainid": 1, "property": prop, "budget_s": 7200},
 					Reach: reach, Functions: fns, Known: knownP},
 				{Name: "symschema-three-slim", Pkg: "merger", Files: []string{"merger/c03.go"}, Entry: "VerifMerge", Mode: "seq",
 					Quick: map[string]int{"services": 3, "kinds": 3, "slim": 1, "property": prop}, Thorough: map[string]int{"services": 3, "kinds": 7, "slim": 1, "property": prop},
